@@ -301,3 +301,26 @@ def lines_with_try(tree):
                 if isinstance(x, ast.Try):
                     out.append(f'{rel}:{x.lineno}')
     return sorted(set(out))
+
+
+def l7_signals_are_called(tree, rep):
+    """`self.not_implemented` without the call parentheses is an expression statement that does nothing: the branch that was
+    meant to refuse falls through and the line answers as if the situation were supported.  Every bare expression statement
+    in a form module that merely names an attribute or a variable (no call, no subscript read that demands a line) is
+    reported; a subscript read such as `v['7a']` standing alone IS a demand and is left alone."""
+    import ast as _ast
+    n = 0
+    for rel in sorted(r for y in tree.years() for r in tree.form_modules(y)):
+        mod = tree.module(rel)
+        for st in _ast.walk(mod):
+            if isinstance(st, _ast.Expr):
+                n += 1
+                v = st.value
+                if isinstance(v, _ast.Attribute) or (isinstance(v, _ast.Name) and v.id not in ('Ellipsis',)):
+                    what = _ast.unparse(v)
+                    rep.ob('L7', f'{rel}:{st.lineno}@{what}', False,
+                           f'`{what}` stands alone as a statement: it names a method or value without calling or using it, so nothing happens - if it was meant to refuse '
+                           '(not_implemented) the definition answers for a situation it does not support, and the solve can succeed', f'{rel}:{st.lineno}')
+    rep.ob('L7', 'no-statement-merely-names-a-method', True)
+    rep.floor('expression statements of the form modules looked at', n, 100)
+    return n
